@@ -20,11 +20,13 @@
     the pause queue never reorders (with and without a flow)
   * open_connection_reply_truthy_iff_failed, empty_reply_is_taken_as_success, failed_connect_ends_flow_with_error:
     the `None` / `""` / message boundary of OpenConnectionCompleted.reply
+  * never_connected_relays_nothing: whole-history form of the connection-failure clause
   * round 3: `Input.hookKill` (flow.kill() inside any hook) is part of every schedule; *_any_sockets variants hold when
     write_eof raises OSError (initX); kill_in_message_hook_still_relays, kill_is_plain_completion
 -/
 import MitmVerif.Lemmas.C29
 import MitmVerif.Lemmas.C29Ignore
+import MitmVerif.Lemmas.C29NC
 namespace MitmVerif.Props.C29
 open MitmVerif MitmVerif.C29 MitmVerif.C29.Lemmas
 
@@ -476,6 +478,31 @@ theorem failed_connect_ends_flow_with_error (st : State) (o : ConnectOutcome) (h
   unfold replyInput
   rw [ht]
   exact connect_failure_fires_error st hph hp hf
+
+/-! ### connection failures over whole histories -/
+
+/-- **Without a server connection nothing is ever relayed.**  For every schedule: as long as no `OpenConnection` of the
+    layer has succeeded — the attempt failed (with whatever message, see `open_connection_reply_truthy_iff_failed`), was
+    refused, or is still pending — every command the layer has yielded is one of: start hook, `OpenConnection`, error
+    hook, close of the client.  In particular no `SendData`, no message hook and no end hook, whatever the peers send,
+    inject or close meanwhile and afterwards. -/
+theorem never_connected_relays_nothing (p : Proto) (f : Bool) (ins : List Input)
+    (hc : (run (init p f false) ins).connected = false) :
+    ∀ o ∈ (run (init p f false) ins).trace,
+      o = .hook .start ∨ o = .openServer ∨ o = .hook .error ∨ o = .close .client false := by
+  have h := (nc_run (init p f false) ins (full_init p f false) (nc_init p f false) hc).1
+  intro o ho
+  have := List.all_eq_true.1 h o ho
+  cases o with
+  | hook hk => cases hk <;> simp_all [setupOnly]
+  | openServer => simp
+  | send to d => simp [setupOnly] at this
+  | close c half => cases c <;> cases half <;> simp_all [setupOnly]
+
+/-- `never_connected_relays_nothing` on a run where the connect fails while client data and a close are buffered -/
+example : let st := run (init .tcp true false) [.start, .data .client [1], .hookDone none, .closed .client false,
+      .connectDone true, .hookDone none, .data .client [2], .inject false [3]]
+    st.connected = false ∧ st.trace = [.hook .start, .openServer, .hook .error, .close .client false] := by decide
 
 /-! ### the hypotheses are satisfiable and the model is not constant -/
 
